@@ -382,9 +382,8 @@ inline constexpr void Conversion<Unit::AngularSpeed, Unit::AngularSpeed::Revolut
 }
 
 template <typename NumericType>
-inline const std::
-    map<Unit::AngularSpeed, std::function<void(NumericType* values, const std::size_t size)>>
-        MapOfConversionsFromStandard<Unit::AngularSpeed, NumericType>{
+inline const ConversionTable<Unit::AngularSpeed, NumericType>
+    MapOfConversionsFromStandard<Unit::AngularSpeed, NumericType>{
           {Unit::AngularSpeed::RadianPerSecond,
            Conversions<Unit::AngularSpeed, Unit::AngularSpeed::RadianPerSecond>::
                FromStandard<NumericType>},
@@ -433,8 +432,7 @@ inline const std::
 };
 
 template <typename NumericType>
-inline const std::map<Unit::AngularSpeed,
-                      std::function<void(NumericType* const values, const std::size_t size)>>
+inline const ConversionTable<Unit::AngularSpeed, NumericType>
     MapOfConversionsToStandard<Unit::AngularSpeed, NumericType>{
       {Unit::AngularSpeed::RadianPerSecond,
        Conversions<Unit::AngularSpeed, Unit::AngularSpeed::RadianPerSecond>::
